@@ -172,9 +172,10 @@ def classify(g, ctx, bb, t):
     if t.get('ws_iter') and t.get('leaf') and not re.search(
             r' as core::iter::(IntoIterator>::into_iter|Iterator>::(map|filter|filter_map|zip|chain|enumerate|skip|take|rev|peekable|by_ref|inspect|take_while|'
             r'skip_while|map_while|scan|fuse|cloned|copied|step_by|flatten|flat_map|size_hint)\b)', callee):
-        # library code instantiated with a hand-written workspace iterator: it may call that iterator's `next()` any number of times and
-        # this analysis does not follow it there (adaptor constructors do not pull) - opaque effect, fail closed
-        return Eff('sdk', ctx, bb, callee, at, name='library call driving a workspace iterator', args=A())
+        # library code instantiated with a hand-written workspace iterator may call that iterator's `next()` any number of times; a value
+        # with a hand-written `Drop` is dropped; a hand-written (not derived) PartialEq / Clone / Debug .. impl is called: none of these is
+        # followed (adaptor constructors do not pull) - opaque effect, fail closed
+        return Eff('sdk', ctx, bb, callee, at, name='call back into unfollowed workspace code (hand-written Iterator / Drop / comparison impl)', args=A())
     if callee.startswith('INDIRECT ') or callee.startswith('UNRESOLVED '):
         # a call through a function pointer / trait object whose target is not known in this calling context (a known one is a
         # child context in the graph and never reaches here): anything may happen in it - opaque effect, fail closed
